@@ -68,6 +68,18 @@ def main():
         ok &= rc == 0
         rc, out = sh(["git", "apply", patch], cwd=wt)
         if rc:
+            # the repository moved on since the patch was written: three-way merge it, and if that is clean
+            # rewrite patch.diff against the current HEAD so that `git -C /repo apply` keeps working
+            rc, out3 = sh(["git", "apply", "--3way", patch], cwd=wt)
+            if rc == 0 and "conflict" not in out3.lower():
+                sh(["git", "reset", "-q"], cwd=wt)
+                _, newdiff = sh(["git", "diff"], cwd=wt)
+                if newdiff.strip():
+                    open(patch, "w").write(newdiff)
+                    meta["patch_rebased_onto"] = meta["repo_head"]
+            else:
+                rc, out = 1, out + out3
+        if rc:
             meta["apply"] = "FAILED: " + out[-300:]
             ok = False
         else:
